@@ -54,6 +54,13 @@ theorem partCoef_perm (W : AMat Rat n) (c : Vector Int n) :
 theorem pt_map_perm {α β : Type} (f : α → β) (A : AMat α n) : AMat.map f (permA σ A) = permA σ (AMat.map f A) := by
   apply AMat.ext_get; intro i j; simp [AMat.map]
 
+/-- `degree='in'`: the driver (like the routine) transposes the matrix first -/
+theorem partCoef_in_perm (W : AMat Rat n) (c : Vector Int n) :
+    partCoef (AMat.transpose (permA σ W)) (permVec σ c) = permVec σ (partCoef (AMat.transpose W) c) := by
+  have h : AMat.transpose (permA σ W) = permA σ (AMat.transpose W) := by
+    apply AMat.ext_get; intro i j; simp [AMat.transpose]
+  rw [h, partCoef_perm]
+
 theorem partCoefSign_perm (W : AMat Rat n) (c : Vector Int n) :
     partCoefSign (permA σ W) (permVec σ c) = (permVec σ (partCoefSign W c).1, permVec σ (partCoefSign W c).2) := by
   simp only [partCoefSign, Partition.posPart, Partition.negPart, pt_map_perm, partCoef_perm]
